@@ -63,6 +63,30 @@ mod parse_side {
         }
         format!("{{{}}}", items.iter().map(|(k, s)| format!("{}={}", hex(k), s)).collect::<Vec<_>>().join(";"))
     }
+    /// the same table with the entries of every table (at any depth) inserted in reverse order
+    fn reversed(t: &toml::Table) -> toml::Table {
+        let mut r = toml::Table::new();
+        let es: Vec<(&String, &toml::Value)> = t.iter().collect();
+        for (k, v) in es.into_iter().rev() {
+            r.insert(k.clone(), rev_val(v));
+        }
+        r
+    }
+    fn has_nan(v: &toml::Value) -> bool {
+        match v {
+            toml::Value::Float(f) => f.is_nan(),
+            toml::Value::Table(t) => t.iter().any(|(_, v)| has_nan(v)),
+            toml::Value::Array(a) => a.iter().any(has_nan),
+            _ => false,
+        }
+    }
+    fn rev_val(v: &toml::Value) -> toml::Value {
+        match v {
+            toml::Value::Table(t) => toml::Value::Table(reversed(t)),
+            toml::Value::Array(a) => toml::Value::Array(a.iter().map(rev_val).collect()),
+            x => x.clone(),
+        }
+    }
     pub fn doc(text: &str) -> String {
         let e = toml_edit::ImDocument::parse(text.to_string());
         let t = toml::from_str::<toml::Table>(text);
@@ -74,7 +98,9 @@ mod parse_side {
                 {
                     printed = hex(d.clone().into_mut().to_string().as_bytes());
                 }
-                format!("ok edit={} toml_sorted={} toml_iter={} print={}", canon_tbl(d.as_table()), toml_table(&t, true), toml_table(&t, false), printed)
+                // `==` is about content: the same table with every table's entries inserted in reverse order is equal
+                let eq = if has_nan(&toml::Value::Table(t.clone())) { "na" } else if t == reversed(&t) { "1" } else { "0" };
+                format!("ok edit={} toml_sorted={} toml_iter={} print={} eq={eq}", canon_tbl(d.as_table()), toml_table(&t, true), toml_table(&t, false), printed)
             }
             (Err(_), Err(_)) => "err".into(),
             (a, b) => format!("mixed edit={} toml={}", a.is_ok(), b.is_ok()),
@@ -192,7 +218,14 @@ fn main() {
                         }
                     }
                     let it: Vec<String> = t.iter().map(|(k, v)| format!("{k}={}", v.as_integer().unwrap_or(-1))).collect();
-                    format!("map rets={} iter={}", rets.join(","), it.join(","))
+                    // equality is about content, whatever the configuration: the same entries inserted in reverse order
+                    let mut t2 = toml::Table::new();
+                    let rev: Vec<(String, toml::Value)> = t.iter().map(|(k, v)| (k.clone(), v.clone())).collect();
+                    for (k, v) in rev.into_iter().rev() {
+                        t2.insert(k, v);
+                    }
+                    let eq = t == t2 && toml::Value::Table(t.clone()) == toml::Value::Table(t2);
+                    format!("map rets={} iter={}{}", rets.join(","), it.join(","), if eq { "" } else { " EQ-DEPENDS-ON-ORDER" })
                 }
                 "build" => {
                     #[cfg(feature = "display")]
